@@ -504,6 +504,34 @@ def rule_sketch_structure(ctx):
             if not known_off:
                 r.violate(nid, 'enable-test-after-enabled', 'frequency_sketch_enabled', '%s can return true although the estimator is already enabled: ensure_capacity would run again and, on growth, '
                           'zero all recorded counts' % nid, where=ctx.where(nid), expected='if self.frequency_sketch_enabled { false }')
+    # --- the table is (re)sized only by the enable role: every function outside the sketch module that calls ensure_capacity also sets the
+    # `enabled` latch on the paths where it calls it -- so the call happens once, before any lookup has been recorded (a second caller would
+    # wipe the recorded counts whenever it grows the table)
+    ncall = 0
+    for nid, b in sorted(prog.bodies.items()):
+        if nid.startswith(('common::frequency_sketch::', '<common::frequency_sketch::')) or '::tests::' in nid or 'for_testing' in nid:
+            continue
+        if ens.nid not in prog.callees(nid):
+            continue
+        root_ = (b.root or nid) if b.kind == 'closure' else nid
+        try:
+            ps_ = [p for p in ctx.symex(inline_depth=1, loop_visits=2, inline_pred=lambda n_, bb, d: False).run(nid) if not p.diverged]
+        except PathLimit:
+            raise CheckFailure('SKETCH-structure: path limit in %s' % nid)
+        for p in ps_:
+            if not any(e[0] == 'call' and e[1] == ens.nid for e in p.events):
+                continue
+            ncall += 1
+            latch = any((e[0] == 'write' and any(isinstance(x, tuple) and x and x[0] == 'fld' and x[2] == 'frequency_sketch_enabled' for x in subterms(e[1])) and e[2] == ('c', True)) or
+                        (e[0] == 'call' and str(e[1]).endswith('::store') and e[2] and 'frequency_sketch_enabled' in fmt(e[2][0]) and len(e[2]) > 1 and e[2][1] == ('c', True))
+                        for e in p.events)
+            r.instance(function=nid, calls_ensure_capacity=True, sets_enabled_latch_on_that_path=latch)
+            if not latch:
+                r.violate(root_, 'resize-outside-enable', 'ensure_capacity', '%s calls FrequencySketch::ensure_capacity on a path that does not set the `frequency_sketch_enabled` latch: it is not the one-time '
+                          'enable step, so it can run again after lookups were recorded and wipes their counts when the table grows' % nid, where=ctx.where(nid),
+                          expected='ensure_capacity only in enable_frequency_sketch (guarded by should_enable_frequency_sketch)')
+    if ncall < 1 and not r.violations:
+        raise CheckFailure('SKETCH-structure: no caller of ensure_capacity found outside the sketch module')
     # --- depth 4
     for fn in ('frequency', 'increment'):
         b = ctx.body(SK + '::' + fn)
